@@ -498,6 +498,9 @@ func run(c *hx.Ctx) error {
 	}
 	if n := os.Getenv("C01_DEV_STRUCT"); n != "" {
 		// development aid: only the struct stream, n times the quick size
+		if n == "tier" {
+			return structStream(c, c.N(2, 4), c.N(1, 2), c.N(300, 1500), c.N(120, 300), c.N(80, 200), c.N(12, 40))
+		}
 		k := 1
 		fmt.Sscan(n, &k)
 		return structStream(c, 2*k, k, 300, 120, 80, 12)
@@ -811,7 +814,7 @@ func run(c *hx.Ctx) error {
 	}
 	// ---- stream 7: struct values, embedded structs, promoted fields, selector chains (gc, the Lean
 	// evaluator, the field-index table as the disassembler shows it)
-	if err := structStream(c, c.N(2, 6), c.N(1, 3), c.N(300, 2500), c.N(120, 400), c.N(80, 250), c.N(12, 40)); err != nil {
+	if err := structStream(c, c.N(2, 4), c.N(1, 2), c.N(300, 1500), c.N(120, 300), c.N(80, 200), c.N(12, 40)); err != nil {
 		return err
 	}
 	res.Histogram["scriggo-builds"] = w.builds
